@@ -59,11 +59,11 @@ func replayHostile(input string) (bool, string) {
 	if len(a) != 3 {
 		return true, "bad replay input"
 	}
-	objs, err := unwireSeq(a[1])
-	if err != nil || len(objs) != 1 {
+	obj, err := fbUnwireOne(a[1])
+	if err != nil {
 		return true, "bad replay input"
 	}
-	d, _ := objs[0].(pdf.Dict)
+	d, _ := obj.(pdf.Dict)
 	kind, out, detail, wall := fbHostileRun(d, fbHexDecode(a[2]), fbAtoi(a[0]))
 	return kind == "data" || kind == "malformed", fmt.Sprintf("%s (%d bytes, %v) %s", kind, len(out), wall, detail)
 }
